@@ -17,17 +17,20 @@ Print Assumptions C20_chain.
 
 Theorem C20_reads_predecessor_data : forall c, no_cr c -> c <> [] -> option_map (read_file std) (data_csv c) = Some c.
 Proof. exact read_data_csv. Qed.
+Print Assumptions C20_reads_predecessor_data.
 
 (** D14: a stage that collects no line leaves no data.csv and its preceding successor fails *)
 Theorem C20_empty_stage_refuted :
   chain [[[49]]] [mkStage false (fun _ => []); mkStage true (fun i => i)] = NoDataFile [[]].
 Proof. exact empty_stage_refuted. Qed.
+Print Assumptions C20_empty_stage_refuted.
 
 (** a variable reference evaluates to the value the named group's most recent run left (on a name
     clash between members the earliest member's), and runs of other groups do not disturb it *)
 Theorem C20_var_ref : forall (V : Type) keq g v ms st,
   var_ref V keq g v (record_run V g ms st) = get_variable V keq v ms.
 Proof. exact var_ref_latest. Qed.
+Print Assumptions C20_var_ref.
 Theorem C20_var_ref_frame : forall (V : Type) keq g g' v ms st, g <> g' ->
   var_ref V keq g v (record_run V g' ms st) = var_ref V keq g v st.
 Proof. exact var_ref_other_group. Qed.
